@@ -59,7 +59,8 @@ def carries(sg, ident, aliases):
 
 
 def variants(ck, name):
-    out = {name, name.lower(), name.upper(), "  " + name + " \t", name.swapcase()}
+    out = {name, name.lower(), name.upper(), "  " + name + " \t", name.swapcase(),
+           "  " + name + " ", " " + name.lower(), name.upper() + "   "}      # blank padding only (documented spacing)
     if " " not in name.strip():
         # blanks may be inserted anywhere in a short symbol
         chars = list(name)
